@@ -117,8 +117,8 @@ func runC03(c *Ctx) {
 		panic(err)
 	}
 	quoteV4 := rawQuote.(*tpb.QuoteV4)
-	nhist := c.N(2, 12)
-	maxRot := c.N(2, 5)
+	nhist := c.N(3, 12)
+	maxRot := c.N(3, 5)
 	for kind := 0; kind < 3; kind++ {
 		for h := 0; h < nhist; h++ {
 			st := newC03Stack(kind, r)
@@ -144,8 +144,13 @@ func runC03(c *Ctx) {
 						// rotation times in any order relative to each other, inside the root's validity
 						rt := t0.Add(time.Duration(1+r.Intn(20000)) * time.Hour)
 						rots = append(rots, rt)
-						rctx := rotate.NewSigningKeyContext(ctx0, &rotate.SigningKeyContext{SigningKeyCommonName: fmt.Sprintf("signer cn %d", state),
-							SigningKeySerial: big.NewInt(int64(2 + state)), Now: rt})
+						// common names and serial overrides come from small pools, so that rotations reuse a
+						// (CN, serial) pair — and with it a certificate object name — of an earlier key
+						cn := []string{"signer cn", "signer cn", "signer cn b", fmt.Sprintf("signer cn %d", state)}[r.Intn(4)]
+						serial := int64([]int{2, 3, 3, 2 + state, 2 + state}[r.Intn(5)])
+						c.Count(fmt.Sprintf("rotate/cn-pool=%v,serial-repeat=%v", cn == "signer cn", serial != int64(2+state)))
+						rctx := rotate.NewSigningKeyContext(ctx0, &rotate.SigningKeyContext{SigningKeyCommonName: cn,
+							SigningKeySerial: big.NewInt(serial), Now: rt})
 						if _, err := rotate.Key(rctx); err != nil {
 							c.Find("c03/rotate/failed/"+st.name, "fault-free rotate.Key failed: "+err.Error(), fmt.Sprintf("%s state=%d", st.name, state))
 							return
